@@ -130,6 +130,16 @@ CHECKS = {
              "the component order of composite distributions.",
         design="DESIGN.md §5 C19",
         note=TRUST + "; state inversion and min/max aggregation in harness/src/rand.rs"),
+    "C16": dict(
+        technique="TLA+ relation Color on observations (round trips, ranges, gray and hue laws, byte-lane packing, clamping, "
+                  "saturation) plus a TLA+ transcription of the 8-bit HSL algorithms that TLC explores over all 2^24 triples "
+                  "(thorough); trace validation of exhaustive 8-bit row sweeps and float grids",
+        text="TLC proves the 8/255 round-trip bound, totality and the gray laws for the transcribed 8-bit algorithms over "
+             "every triple, and judges the real code at property level: all 2^24 RGB and HSL 8-bit triples (aggregated per "
+             "row; quick: sub-lattice), float round trips on the k/24 and k/60 grids plus random and boundary-adjacent "
+             "triples, packing byte order lane by lane, float-to-u8 clamping and saturating addition.",
+        design="DESIGN.md §5 C16",
+        note=TRUST + "; per-row aggregation and 2^20 scaling in harness/src/color.rs"),
 }
 
 NOT_YET = "check not built yet in this round (see DESIGN.md §9 for the order of work)"
